@@ -52,6 +52,43 @@ pub fn guarded_size(c: &Concrete<'_>) -> Option<WRes> {
     }
 }
 
+/// While `spec` is under observation in an episode that has a second party (ambient.rs), that
+/// party works on configurations of the same builder type: one of exactly the same shape (equal
+/// counts and lengths, other values) and one that is larger.  It measures them, writes them
+/// through `write_into`, and writes them unchecked into exactly what they announced.
+pub fn lend_siblings(spec: &Spec, hash_key: u64) {
+    if !crate::ambient::armed() || spec.weight() > 4096 {
+        return;
+    }
+    let plans = [plan_canonical(&spec.sibling_same_shape()), plan_canonical(&spec.sibling())];
+    let mut scratch = vec![0u8; 1024];
+    crate::ambient::lend(Box::new(move |sel: u64| {
+        let plan = &plans[(sel & 1) as usize];
+        crate::realise::realise(plan, hash_key ^ 0x5151, |c| {
+            let _ = guarded(|| match (sel >> 1) % 4 {
+                0 => {
+                    let _ = c.size();
+                }
+                1 => {
+                    let _ = c.write(&mut scratch);
+                }
+                2 => {
+                    if let Some(Ok(n)) = c.size() {
+                        if n <= scratch.len() {
+                            let _ = c.write_unchecked(&mut scratch[..n]);
+                        }
+                    }
+                }
+                _ => {
+                    let _ = c.size();
+                    let _ = c.get_padding();
+                    let _ = c.write(&mut scratch[..8]);
+                }
+            });
+        });
+    }));
+}
+
 /// Capacities to sweep for an announced size `n`.
 pub fn capacities(n: usize, r: &mut Rng, dense_limit: usize) -> Vec<usize> {
     if n <= dense_limit {
@@ -184,6 +221,7 @@ impl Check for C06 {
         if !tape.is_empty() {
             ctx.stats.fault("call-history", 1);
         }
+        lend_siblings(&spec, hash_key);
         let found = realise_probed(&plan, hash_key, probes, |c| {
             let size = guarded_size(c);
             let n_guess = match &size {
